@@ -1160,3 +1160,9 @@ mod tests {
         assert!(handler.handle_request().is_err());
     }
 }
+
+// Verification harnesses (Kani); the sources live outside this repository.
+#[cfg(feature = "verif")]
+mod verif {
+    include!(concat!(env!("VHOST_VERIF_DIR"), "/harness/vu_backend_req_handler.rs"));
+}
